@@ -817,7 +817,8 @@ pub fn main(args: &[String]) {
     // watchdog: a call that does not return within the limit is a C06 violation
     let current = std::sync::Arc::new(std::sync::Mutex::new(String::new()));
     crate::start_watchdog(std::time::Duration::from_secs(if driver == "big" { 60 } else { 10 }), current);
-    match driver.as_str() {
+    // a panic that escapes a driver iteration (while projecting state) is a C06 failure; the run stops there
+    let run = catch_unwind(AssertUnwindSafe(|| match driver.as_str() {
         "garbage" => drive_garbage(&mut sink, &mut rng, n),
         "corpus" => {
             let corpus = load_corpus(&arg_values(args, "--corpus"));
@@ -840,6 +841,9 @@ pub fn main(args: &[String]) {
             eprintln!("unknown driver {other}");
             std::process::exit(2);
         },
+    }));
+    if run.is_err() {
+        sink.ctx.check("C06", "library panicked while the driver projected a state", "-", false, &json!("value or error"), &json!({"panic": true}));
     }
     sink.out.flush().expect("flush events");
     crate::PROGRESS.store(u64::MAX, Ordering::Relaxed);
